@@ -168,6 +168,11 @@ def follow_up_exc(c, args):
         "if %r:\n"
         "    try:\n        re.compile(got[1], FLAGS)\n    except re.error as e:\n        REPRODUCED(%r + ' emits ' + repr(got[1]) + ' which re rejects: ' + str(e))\n"
         "NOT_REPRODUCED()\n") % (c["allowed"], c["forbidden"], c["required"], call, call, call, call, call, c.get("must_parse", True), call)
+    rc, out = common.run_script(script)
+    if rc != 1:
+        return {"status": "inconclusive",
+                "detail": "counterexample %r of the symbolic run does not reproduce on the real code (artifact of the symbolic model of re); "
+                          "remaining paths of this harness not explored" % (tuple(args),)}
     return {"status": "violated", "detail": "%s with arguments %r" % (c["src"], tuple(args)), "script": script,
             "inputs": {"src": c["src"], "args": list(args), "text": ""}}
 
